@@ -342,9 +342,8 @@ func (h *hist) maskAt(uuid string, m *model, size, off [3]int32, where string) e
 	h.c.Case(fmt.Sprintf("mask|%s|%d|%s|%v|%v", h.tag, len(h.trace), spansJSON(m.spans), size, off), nin > 0 && nin < nvox)
 	cls := "positive"
 	if off[0] < 0 || off[1] < 0 || off[2] < 0 {
-		cls = "negative-coords"
-	}
-	if m.overlapping() {
+		cls = "negative-coords" // one class whatever the span set looks like
+	} else if m.overlapping() {
 		cls += ":overlapping-spans"
 	}
 	if !rr.OK() {
